@@ -914,7 +914,8 @@ def fclass(f):
 def cli_home(tag, model, arch="zen1"):
     """A private HOME whose ~/.osaca/data/<arch>.yml is the rendered synthetic model, so that
     `osaca --arch <arch>` analyses with it (user data directory takes precedence)."""
-    home = env.sandbox_home(fresh=True, tag=tag)
+    # private to the calling process: the owner deletes it, and two runs at the same time must not share it
+    home = env.sandbox_home(fresh=True, tag="%s-%d" % (tag, os.getpid()))
     target = os.path.join(home, ".osaca", "data", arch + ".yml")
     if os.path.lexists(target):
         os.unlink(target)
